@@ -34,7 +34,7 @@ CK_ORDER = ["nohook", "A", "B", "n"]
 
 def configs(tier):
     if tier == "quick":
-        return [dict(name="Q2", modules=["ma", "mb"], checkers=["nohook", "A", "B"])]
+        return [dict(name="Q2", modules=["ma", "mb"], checkers=["nohook", "A", "B"], small=True)]
     return [
         dict(name="T2", modules=["ma", "mb"], checkers=["nohook", "A", "B", "n"]),
         dict(name="T3", modules=["ma", "mb", "mc"], checkers=["nohook", "A"]),
@@ -64,24 +64,32 @@ def all_ops(cfg):
         for hooked in [[]] if ck == "nohook" else subsets(cfg["modules"]):
             for order in orders(cfg["modules"]):
                 ops.append(["run", hooked, ck, order])
+    # runs made with checking switched off (not judged themselves; they must not poison later runs)
+    small = cfg.get("small")
+    for ck in [c for c in CK_ORDER if c in cfg["checkers"] and c != "nohook"][: (1 if small else 2)]:
+        ops.append(["run", list(cfg["modules"]), ck, orders(cfg["modules"])[0], "disabled"])
     for m in cfg["modules"]:
         ops.append(["edit", m])
+    for m in cfg["modules"][: (1 if small else 2)]:
+        ops.append(["edit", m, "back"])  # source replaced by a version with an OLDER mtime (same size)
     return ops
 
 
 def op_desc(op):
     if op[0] == "edit":
-        return f"edit({op[1]})"
-    _, hooked, ck, order = op
+        return f"edit({op[1]})" + ("!older-mtime" if len(op) > 2 else "")
+    _, hooked, ck, order = op[:4]
     if ck == "nohook":
         return f"nohook({','.join(order)})"
-    return f"hook[{'+'.join(hooked)}]{'None' if ck == 'n' else ck}({','.join(order)})"
+    return f"hook[{'+'.join(hooked)}]{'None' if ck == 'n' else ck}({','.join(order)})" + ("!disabled" if len(op) > 4 else "")
 
 
 def judge(cfg, op, obs, src_versions, pre_listing):
     """-> [(cls, module, detail)] for one run.  cls is the stable classifier."""
-    _, hooked, ck, order = op
+    _, hooked, ck, order = op[:4]
     probs = []
+    if len(op) > 4 and op[4] == "disabled":
+        return []  # with checking off instrumentation is not observable; only what the run leaves behind matters
     plan = worlds.c18_load_plan(order, cfg["modules"])
     if obs["outcome"] != "ok":
         return [("run-raised:" + obs["outcome"].split(":")[1], "-", obs["outcome"])]
@@ -141,9 +149,9 @@ def _world(tmp, modules):
 def _apply(w, cfg, op, pre_listing):
     """Execute one operation from the currently restored state; -> (obs, problems)."""
     if op[0] == "edit":
-        w.edit(op[1])
+        w.edit(op[1], back=len(op) > 2)
         return None, []
-    obs = w.run(op[1], op[2], op[3])
+    obs = w.run(op[1], op[2], op[3], disabled=len(op) > 4 and op[4] == "disabled")
     return obs, judge(cfg, op, obs, {m: v[0] for m, v in w.src.items()}, pre_listing)
 
 
@@ -207,13 +215,13 @@ def _subproc(job):
         nonlocal n
         w.restore(start)
         if op[0] == "edit":
-            w.edit(op[1])
+            w.edit(op[1], back=len(op) > 2)
             return w.snapshot(), None
-        sub = w.subprocess_run(op[1], op[2], op[3])
+        sub = w.subprocess_run(op[1], op[2], op[3], disabled=len(op) > 4 and op[4] == "disabled")
         s_sub = w.snapshot()
         k_sub = w.key(s_sub)
         w.restore(start)
-        inp = w.run(op[1], op[2], op[3])
+        inp = w.run(op[1], op[2], op[3], disabled=len(op) > 4 and op[4] == "disabled")
         k_in = w.key()
         n += 1
         if k_sub != k_in or not _cmp(sub, inp):
@@ -304,10 +312,10 @@ def _history_as_processes(w, cfg, hist):
     for op in hist:
         pre = w.listing()
         if op[0] == "edit":
-            w.edit(op[1])
+            w.edit(op[1], back=len(op) > 2)
             probs = []
         else:
-            obs = w.subprocess_run(op[1], op[2], op[3])
+            obs = w.subprocess_run(op[1], op[2], op[3], disabled=len(op) > 4 and op[4] == "disabled")
             probs = judge(cfg, op, obs, {m: v[0] for m, v in w.src.items()}, pre)
     return probs, w.key()
 
